@@ -45,3 +45,25 @@ Proof.
   unfold sx_Zs, of_Zs. cbn [sx_list]. rewrite map_map.
   induction l as [|x l IH]; [reflexivity|]. cbn [map]. f_equal. exact IH.
 Qed.
+
+(** ---- the verdict of a judge: "agree" and "violates" fields ---- *)
+Definition judged_agree (v : sx) : bool := sx_bool (sx_nth v 0).
+Definition judged_violates (v : sx) : bool := sx_bool (sx_nth v 1).
+
+Lemma verdict_fields a v m d : judged_agree (verdict a v m d) = a /\ judged_violates (verdict a v m d) = v.
+Proof.
+  unfold judged_agree, judged_violates, verdict, sx_nth. cbn [sx_list nth]. rewrite !sx_bool_of_bool.
+  split; reflexivity.
+Qed.
+
+(** for the default judge: a monitor that is silent on the model never fires
+    on an observation the judge accepts as agreeing with the model *)
+Lemma judge_det_agree_not_violates (run : sx -> sx) (mon : sx -> sx -> list Z) inp obs :
+  mon inp (run inp) = [] ->
+  judged_agree (judge_det run mon inp obs) = true -> judged_violates (judge_det run mon inp obs) = false.
+Proof.
+  intros Hm. unfold judge_det. cbv zeta.
+  destruct (verdict_fields (sx_eqb (run inp) obs) (negb (match mon inp obs with [] => true | _ => false end))
+              (run inp) (of_Zs (mon inp obs))) as [-> ->].
+  intros Ha. apply sx_eqb_eq in Ha. subst obs. rewrite Hm. reflexivity.
+Qed.
